@@ -11,6 +11,10 @@ R3.4 index-space consistency between what the queue computes and how
      accumulate-and-filter backends store and apply delivered marks
 R3.5 every fetch of an accumulate-and-filter backend drops the settled
      recipients; deletion happens in descending index order
+R3.6 the positions recorded as settled are positions in envelope.recipients
+     (looked up there, not taken from the iteration order of the results)
+R3.7 the in-flight mark of an id is released only after its removal was
+     initiated or its next due time was persisted by the same greenlet
 """
 from __future__ import annotations
 
@@ -52,6 +56,12 @@ def run(e: Engine, rep: Report):
     rep.rule('R3.5', 'get() of every accumulate-and-filter backend applies '
              '_remove_delivered_rcpts with the stored marks on every path; '
              'deletion is in descending order')
+    rep.rule('R3.6', 'every value added to the settled-position set in '
+             '_handle_partial_relay is derived from envelope.recipients '
+             '(recipients.index(rcpt) or an enumeration of that list)')
+    rep.rule('R3.7', 'every active_ids.discard(id) is preceded on every path '
+             'of its function by store.remove(id) (called or spawned) or '
+             'store.set_timestamp(id, ...) for that id')
     rep.tables.add('c03.QUEUED_WRITERS')
     rep.not_decided += ['multi-round outcome histories as executions (R3.4 '
                         'is the structural reason they go wrong)',
@@ -61,7 +71,10 @@ def run(e: Engine, rep: Report):
     r33(e, rep)
     r34(e, rep, 'R3.4')
     r35(e, rep)
+    r36(e, rep, 'R3.6')
+    r37(e, rep)
     rep.floor('R3.1', 2, 'attempt spawn sites')
+    rep.floor('R3.7', 2, 'release sites of the in-flight mark')
 
 
 def attempt_spawns(e: Engine, g) -> List[Node]:
@@ -426,3 +439,139 @@ def r35(e: Engine, rep: Report):
               'positions of the recipients still to be deleted: the wrong '
               'recipients are removed', loc=ctx.func.loc(),
               reason='for index in sorted(..., reverse=True): del ...')
+
+
+# -------------------------------------------------------------------- R3.6
+def items_loop_vars(loop_ast: ast.For):
+    """(key name, value name, index name|None) of a loop over X.items(),
+    also when wrapped in enumerate()."""
+    it, tg = loop_ast.iter, loop_ast.target
+    idx = None
+    if isinstance(it, ast.Call) and ast.unparse(it.func) == 'enumerate' and \
+            it.args and isinstance(tg, ast.Tuple) and len(tg.elts) == 2:
+        idx = tg.elts[0].id if isinstance(tg.elts[0], ast.Name) else None
+        it, tg = it.args[0], tg.elts[1]
+    if not (isinstance(it, ast.Call) and isinstance(it.func, ast.Attribute)
+            and it.func.attr == 'items'):
+        return None
+    if isinstance(tg, ast.Tuple) and len(tg.elts) == 2 and all(
+            isinstance(x, ast.Name) for x in tg.elts):
+        return tg.elts[0].id, tg.elts[1].id, idx
+    return None
+
+
+def r36(e: Engine, rep: Report, rule: str):
+    ctx = e.method_ctx(QUEUE, '_handle_partial_relay')
+    fn = ctx.func.node
+    where = ctx.func.qname
+    env = ctx.func.params[2] if len(ctx.func.params) > 2 else 'envelope'
+    src = env + '.recipients'
+
+    def from_recipients(x: ast.AST, seen=()) -> bool:
+        if any(ast.unparse(y) == src for y in ast.walk(x)):
+            return True
+        if isinstance(x, ast.Name) and x.id not in seen:
+            defs = []
+            for n in walk_own(fn):
+                if isinstance(n, ast.Assign) and any(
+                        isinstance(t, ast.Name) and t.id == x.id
+                        for t in n.targets):
+                    defs.append(n.value)
+                if isinstance(n, (ast.For, ast.comprehension)):
+                    it, tg = n.iter, n.target
+                    if isinstance(it, ast.Call) and \
+                            ast.unparse(it.func) == 'enumerate' and \
+                            isinstance(tg, ast.Tuple) and tg.elts and \
+                            isinstance(tg.elts[0], ast.Name) and \
+                            tg.elts[0].id == x.id:
+                        # an index of an enumeration: of which list?
+                        defs.append(it.args[0] if it.args else it)
+                    elif any(isinstance(t, ast.Name) and t.id == x.id
+                             for t in ast.walk(tg)):
+                        defs.append(ast.Constant(value=None))
+            return bool(defs) and all(
+                from_recipients(d, seen + (x.id,)) for d in defs)
+        return False
+    sites = 0
+    for n in walk_own(fn):
+        if isinstance(n, ast.Call) and isinstance(n.func, ast.Attribute) \
+                and n.func.attr in ('add', 'append') and \
+                'deliver' in ast.unparse(n.func.value) and n.args:
+            sites += 1
+            rep.evaluations += 1
+            rep.check(from_recipients(n.args[0]), rule, where,
+                      'settled position `%s` is a position in %s'
+                      % (ast.unparse(n.args[0]), src),
+                      'the position recorded as settled is not looked up in '
+                      '%s: a relay that returns its per-recipient results '
+                      'in another order than the envelope lists them makes '
+                      'the queue mark the wrong recipients (a settled one is '
+                      'attempted again, an unsettled one is dropped)' % src,
+                      loc=ctx.func.loc(n),
+                      reason='derived from ' + src)
+    if sites < 1:
+        rep.error('anchor vanished: settled-position sites in '
+                  '_handle_partial_relay')
+
+
+# -------------------------------------------------------------------- R3.7
+def r37(e: Engine, rep: Report):
+    c = e.p.cls(QUEUE)
+    total = 0
+    for mname, m in sorted(c.methods.items()):
+        if 'active_ids' not in ast.unparse(m.node):
+            continue
+        ctx = Ctx(m, QUEUE)
+        g = e.build(ctx)
+        rel = [n for n in g.nodes if n.kind == 'call' and
+               e.call_name(n) == 'discard' and
+               canon(n.ast.func.value, n.frame) == 'self.active_ids'
+               and n.ast.args]
+        if not rel:
+            continue
+        where = m.qname
+        rep.functions.add(where)
+
+        def outcome(n):
+            if n.kind != 'call':
+                return []
+            nm = e.call_name(n)
+            if nm in ('remove', 'set_timestamp') and n.ast.args and \
+                    'store' in canon(n.ast.func.value, n.frame):
+                return ['out:' + canon(n.ast.args[0], n.frame)]
+            if nm in ('_pool_spawn', 'spawn', '_pool_run'):
+                a = n.ast.args
+                for i, x in enumerate(a):
+                    if ast.unparse(x).endswith('store.remove') and \
+                            i + 1 < len(a):
+                        return ['out:' + canon(a[i + 1], n.frame)]
+            return []
+        before = dataflow.must_events_before(
+            g, outcome, edge_events=lambda n, l: outcome(n))
+        for n in rel:
+            total += 1
+            rep.evaluations += 1
+            idp = canon(n.ast.args[0], n.frame)
+            st = before.get(n.id)
+            ok = st is None or ('out:' + idp) in st
+            w = None
+            if not ok:
+                pth = dataflow.find_path(
+                    g, g.entry, lambda x: x is n,
+                    avoid=lambda x: ('out:' + idp) in outcome(x))
+                w = dataflow.render_path(pth, 14) if pth else None
+            rep.check(ok, 'R3.7', where,
+                      'in-flight mark released only after the outcome of '
+                      'the attempt was recorded',
+                      'active_ids.discard(%s) is reached on a path on which '
+                      'neither the removal of the message was started nor '
+                      'its next due time persisted: the message is still '
+                      'stored and dispatchable (an announcement by wait() '
+                      'or load() starts a second attempt) while the handler '
+                      'of the first attempt is still pending' % idp.split('#')[0],
+                      loc=n.loc(), witness=w,
+                      reason='store.remove / store.set_timestamp for the '
+                      'id on every path before')
+    if total < 2:
+        rep.error('anchor vanished: active_ids.discard sites (%d < 2)'
+                  % total)
